@@ -1,143 +1,7 @@
 import SaphyrVerif.Model.IoCell
-/-! Helper lemmas for C10: the pump clears `seen_doc_end` before it delivers an event (on framed parser
-items), and the bookkeeping of the cell. -/
+/-! Helper lemmas for C10: the bookkeeping of the error cell, the writer adapter, the byte cap. -/
 namespace SaphyrVerif.Lemmas.C10
 open SaphyrVerif SaphyrVerif.Scalars SaphyrVerif.Pump SaphyrVerif.Reader SaphyrVerif.IoCell
-
-/-- pump invariant tied to the framing state `st` of the remaining items -/
-def PInv (st : Nat) (p : Pump) : Prop :=
-  (st ≠ 0 → p.seenDocEnd = false) ∧ (st = 2 → p.producedAny = true) ∧
-  (p.seenDocEnd = true → p.producedAny = true ∧ p.inject = []) ∧
-  p.look = none ∧ p.stopAtDocEnd = false
-
-theorem serveInject_fields (p : Pump) (fr : List InjectFrame) :
-    (serveInject p fr).2.seenDocEnd = p.seenDocEnd ∧ (serveInject p fr).2.look = p.look ∧
-    (serveInject p fr).2.stopAtDocEnd = p.stopAtDocEnd ∧
-    (p.producedAny = true → (serveInject p fr).2.producedAny = true) ∧
-    (∀ e, (serveInject p fr).1 = some (.event e) → (serveInject p fr).2.producedAny = true) ∧
-    ((serveInject p fr).1 = none → (serveInject p fr).2.inject = []) := by
-  fun_induction serveInject p fr <;> simp_all +zetaDelta
-
-theorem serveInject_eq {p p' : Pump} {fr : List InjectFrame} {r : Option Step}
-    (h : serveInject p fr = (r, p')) :
-    p'.seenDocEnd = p.seenDocEnd ∧ p'.look = p.look ∧ p'.stopAtDocEnd = p.stopAtDocEnd ∧
-    (p.producedAny = true → p'.producedAny = true) ∧
-    (∀ e, r = some (.event e) → p'.producedAny = true) ∧ (r = none → p'.inject = []) := by
-  have := serveInject_fields p fr
-  rw [h] at this
-  exact this
-
-/-- On framed parser items the parser loop of `next_impl` never delivers an event while `seen_doc_end`
-is set: a `DocumentStart` (which clears it) always lies between a `DocumentEnd` and the next content. -/
-theorem parserLoop_event (p : Pump) (items : List RawItem) :
-    ∀ st, PInv st p → framed st items = true →
-    ∀ e, (parserLoop p items).1 = .event e →
-      (parserLoop p items).2.1.seenDocEnd = false ∧
-      ∃ st', PInv st' (parserLoop p items).2.1 ∧ framed st' (parserLoop p items).2.2 = true := by
-  fun_induction parserLoop p items <;> intro st hinv hfr e he
-  all_goals first
-    | (simp_all +zetaDelta [PInv, framed, Pump.resetDocumentState]; done)
-    | (refine ⟨?_, 2, ?_, ?_⟩ <;> (simp_all +zetaDelta [PInv, framed]; done))
-    | (have hx := ‹serveInject _ _ = (some _, _)›
-       have hs := serveInject_eq hx
-       refine ⟨?_, 2, ?_, ?_⟩ <;> (simp_all +zetaDelta [PInv, framed]; done))
-    | (rename_i ih
-       have hx := ‹serveInject _ _ = (none, _)›
-       have hs := serveInject_eq hx
-       refine ih 2 ?_ ?_ e he <;> (simp_all +zetaDelta [PInv, framed]; done))
-    | (rename_i ih; refine ih st ?_ ?_ e he <;> (simp_all +zetaDelta [PInv, framed, Pump.resetDocumentState]; done))
-    | (rename_i ih; refine ih 1 ?_ ?_ e he <;> (simp_all +zetaDelta [PInv, framed, Pump.resetDocumentState]; done))
-    | (rename_i ih; refine ih 0 ?_ ?_ e he <;> (simp_all +zetaDelta [PInv, framed, Pump.resetDocumentState]; done))
-    | (refine ⟨?_, 2, ?_, ?_⟩ <;>
-        (simp_all +zetaDelta [PInv, framed, apply_ite Pump.seenDocEnd, apply_ite Pump.look, apply_ite Pump.stopAtDocEnd,
-          apply_ite Pump.inject, apply_ite Pump.producedAny]; done))
-
-theorem PInv_lastLoc {st : Nat} {p : Pump} (l : Loc) : PInv st { p with lastLoc := l } ↔ PInv st p := by
-  simp [PInv]
-
-theorem nextImpl_event {st : Nat} {p : Pump} {input : List RawItem} (hinv : PInv st p)
-    (hfr : framed st input = true) {e : Ev} (he : (nextImpl p input).1 = .event e) :
-    (nextImpl p input).2.1.seenDocEnd = false ∧
-    ∃ st', PInv st' (nextImpl p input).2.1 ∧ framed st' (nextImpl p input).2.2 = true := by
-  unfold nextImpl at *
-  cases hs : serveInject p p.inject with
-  | mk r p' =>
-    have hf := serveInject_eq hs
-    cases r with
-    | none =>
-      simp only [hs] at he ⊢
-      refine parserLoop_event p' input st ?_ hfr e he
-      simp_all [PInv]
-    | some step =>
-      simp only [hs] at he ⊢
-      have hne : p.inject ≠ [] := by
-        intro h
-        rw [h] at hs
-        simp [serveInject] at hs
-      have hseen : p.seenDocEnd = false := by
-        cases h : p.seenDocEnd with
-        | false => rfl
-        | true => exact absurd (hinv.2.2.1 h).2 hne
-      refine ⟨by simp_all, st, ?_, hfr⟩
-      simp_all [PInv]
-
-/-- invariant of the pump between calls of `next`/`peek` (the look-ahead slot may be filled) -/
-def QInv (st : Nat) (p : Pump) : Prop :=
-  PInv st { p with look := none } ∧ (p.look.isSome = true → p.seenDocEnd = false)
-
-theorem pump_next_event {st : Nat} {p : Pump} {input : List RawItem} (hinv : QInv st p)
-    (hfr : framed st input = true) {e : Ev} (he : (Pump.next p input).1 = .event e) :
-    (Pump.next p input).2.1.seenDocEnd = false ∧
-    ∃ st', QInv st' (Pump.next p input).2.1 ∧ framed st' (Pump.next p input).2.2 = true := by
-  unfold Pump.next at *
-  cases hl : p.look with
-  | some ev =>
-    simp only [hl] at he ⊢
-    have := hinv.2 (by simp [hl])
-    refine ⟨by simpa using this, st, ?_, hfr⟩
-    have h1 := hinv.1
-    simp_all [QInv, PInv]
-  | none =>
-    simp only [hl] at he ⊢
-    have hp : PInv st p := by
-      have h1 := hinv.1
-      simp_all [PInv]
-    obtain ⟨a, st', b, c⟩ := nextImpl_event hp hfr he
-    refine ⟨a, st', ?_, c⟩
-    have := b.2.2.2.1
-    simp_all [QInv, PInv]
-
-theorem pump_peek_event {st : Nat} {p : Pump} {input : List RawItem} (hinv : QInv st p)
-    (hfr : framed st input = true) {e : Ev} (he : (Pump.peek p input).1 = .event e) :
-    (Pump.peek p input).2.1.seenDocEnd = false ∧
-    ∃ st', QInv st' (Pump.peek p input).2.1 ∧ framed st' (Pump.peek p input).2.2 = true := by
-  unfold Pump.peek at *
-  cases hl : p.look with
-  | some ev =>
-    simp only [hl] at he ⊢
-    have := hinv.2 (by simp [hl])
-    refine ⟨by simpa using this, st, ?_, hfr⟩
-    have h1 := hinv.1
-    simp_all [QInv, PInv]
-  | none =>
-    simp only [hl] at he ⊢
-    have hp : PInv st p := by
-      have h1 := hinv.1
-      simp_all [PInv]
-    cases hn : nextImpl p input with
-    | mk step r =>
-      cases r with
-      | mk p' rest =>
-        cases step with
-        | event ev =>
-          have he' : (nextImpl p input).1 = .event ev := by rw [hn]
-          obtain ⟨a, st', b, c⟩ := nextImpl_event hp hfr he'
-          rw [hn] at a b c
-          simp only [hn] at he ⊢
-          refine ⟨by simpa using a, st', ?_, by simpa using c⟩
-          simp_all [QInv, PInv]
-        | eof => simp [hn] at he
-        | error x => simp [hn] at he
 
 /-! ### the cell -/
 
@@ -157,49 +21,8 @@ theorem fire_cell (s : Src) :
   · simp; exact fun h => Or.inl h
   · simp
 
-/-- source invariant: the pump invariant holds for some framing state of the remaining items -/
-def SInv (s : Src) : Prop := ∃ st, QInv st s.pump ∧ framed st s.input = true
-
 /-- `K d s`: if the cell was ever set, it is still set (nobody has taken it) — or `d` -/
 def K (d : Bool) (s : Src) : Prop := s.everSet = true → s.cell.isSome = true ∨ d = true
-
-/-- `J s`: a pending error is never accompanied by `seen_doc_end` -/
-def J (s : Src) : Prop := s.cell.isSome = true → s.pump.seenDocEnd = false
-
-theorem doOp_event {s s' : Src} {o : COp} {e : Ev} (hi : SInv s) (h : s.doOp o = (.event e, s')) :
-    s'.pump.seenDocEnd = false ∧ SInv s' := by
-  obtain ⟨st, hq, hf⟩ := hi
-  cases o with
-  | next =>
-    simp only [Src.doOp, Src.next] at h
-    cases hc : s.cell with
-    | some k => simp [hc] at h
-    | none =>
-      simp only [hc] at h
-      have h1 := congrArg Prod.fst h
-      have h2 := congrArg Prod.snd h
-      simp only at h1 h2
-      have he : (Pump.next s.pump s.input).1 = .event e := by
-        cases hx : (Pump.next s.pump s.input).1 <;> simp_all [ofStep]
-      obtain ⟨a, st', b, c⟩ := pump_next_event hq hf he
-      subst h2
-      exact ⟨by rw [(fire_fields _).1]; exact a, st', by rw [(fire_fields _).1]; exact b,
-        by rw [(fire_fields _).2.1]; exact c⟩
-  | peek =>
-    simp only [Src.doOp, Src.peek] at h
-    cases hc : s.cell with
-    | some k => simp [hc] at h
-    | none =>
-      simp only [hc] at h
-      have h1 := congrArg Prod.fst h
-      have h2 := congrArg Prod.snd h
-      simp only at h1 h2
-      have he : (Pump.peek s.pump s.input).1 = .event e := by
-        cases hx : (Pump.peek s.pump s.input).1 <;> simp_all [ofStep]
-      obtain ⟨a, st', b, c⟩ := pump_peek_event hq hf he
-      subst h2
-      exact ⟨by rw [(fire_fields _).1]; exact a, st', by rw [(fire_fields _).1]; exact b,
-        by rw [(fire_fields _).2.1]; exact c⟩
 
 /-- an observation point that does not return `Err` leaves `K` intact: a pending error cannot slip by -/
 theorem doOp_K {d : Bool} {s s' : Src} {o : COp} {r : R} (hk : K d s) (h : s.doOp o = (r, s')) (hr : r.isErr = false) :
@@ -278,33 +101,7 @@ theorem finishTail_surfaces {s : Src} (hk : K false s) :
         have := hk h
         simp [hc] at this
 
-/-- the consumer phase: if it ends with `Ok(value)` no error is pending *unseen* (`K`), and a pending
-error is not accompanied by `seen_doc_end` (`J`) -/
-theorem runClient_ok (c : Client) : ∀ (fuel : Nat) (hist : List Ev) (s s1 : Src) (d : Bool),
-    K d s → J s → SInv s → runClient c fuel hist s = (none, s1) → K d s1 ∧ J s1 ∧ SInv s1 := by
-  intro fuel
-  induction fuel with
-  | zero => intro hist s s1 d _ _ _ h; simp [runClient] at h
-  | succ fuel ih =>
-    intro hist s s1 d hk hj hi h
-    simp only [runClient] at h
-    split at h
-    · simp at h; subst h; exact ⟨hk, hj, hi⟩
-    · simp at h
-    · rename_i o _
-      cases hop : s.doOp o with
-      | mk r s' =>
-        rw [hop] at h
-        cases r with
-        | event e =>
-          simp only at h
-          have hk' := doOp_K hk hop (by simp [R.isErr])
-          obtain ⟨hseen, hi'⟩ := doOp_event hi hop
-          exact ih (e :: hist) s' s1 d hk' (fun _ => hseen) hi' h
-        | none => simp at h
-        | err e => simp at h
-
-/-- the same for `K` alone (no framing needed): used by the iterator -/
+/-- the consumer phase: if it ends with `Ok(value)` no error is pending unseen (`K`) -/
 theorem runClient_K (c : Client) : ∀ (fuel : Nat) (hist : List Ev) (s s1 : Src) (d : Bool),
     K d s → runClient c fuel hist s = (none, s1) → K d s1 := by
   intro fuel
@@ -327,22 +124,13 @@ theorem runClient_K (c : Client) : ∀ (fuel : Nat) (hist : List Ev) (s s1 : Src
         | none => simp at h
         | err e => simp at h
 
-theorem K_mono {d : Bool} {s : Src} (x : Bool) (h : K d s) : K (d || x) s := by
-  intro he
-  rcases h he with h | h
-  · exact Or.inl h
-  · exact Or.inr (by simp [h])
-
-theorem K_true (s : Src) : K true s := fun _ => Or.inr rfl
-
-/-- what one `ReadIter::next` call guarantees: it yields an `Err` item, or nothing pending has been lost
-except through a discarded `next()` result -/
+/-- what one `ReadIter::next` call guarantees: it yields an `Err` item, or no error is pending unseen -/
 def Good : Option Item × Iter → Prop
   | (some (.err _), _) => True
-  | (some .ok, it') => it'.finished = false ∧ K it'.discardedErr it'.src
-  | (none, it') => K it'.discardedErr it'.src ∧ it'.src.cell = none
+  | (some .ok, it') => it'.finished = false ∧ K false it'.src
+  | (none, it') => K false it'.src ∧ it'.src.cell = none
 
-theorem iterNext_spec (c : Client) : ∀ (fuel : Nat) (it : Iter), it.finished = false → K it.discardedErr it.src →
+theorem iterNext_spec (c : Client) : ∀ (fuel : Nat) (it : Iter), it.finished = false → K false it.src →
     Good (iterNext c fuel it) := by
   intro fuel
   induction fuel with
@@ -355,7 +143,7 @@ theorem iterNext_spec (c : Client) : ∀ (fuel : Nat) (it : Iter), it.finished =
       have hp : it.src.peek = (.err (.io k), { it.src with cell := none }) := doOp_some .peek hc
       simp [hp, Good]
     | none =>
-      have hk2 : K it.discardedErr it.src.peek.2 := doOp_K_none .peek hc hk
+      have hk2 : K false it.src.peek.2 := doOp_K_none .peek hc hk
       cases hpk : it.src.peek with
       | mk r s =>
         rw [hpk] at hk2
@@ -363,26 +151,29 @@ theorem iterNext_spec (c : Client) : ∀ (fuel : Nat) (it : Iter), it.finished =
         | event ev =>
           simp only [Bool.false_eq_true, if_false]
           by_cases hnull : isNullishScalar ev = true
-          · -- null-like document: `let _ = self.src.next(); continue`
+          · -- null-like document: consumed with `next`; an error there is returned
             simp only [hnull, if_true]
             cases hn : s.next with
             | mk r2 s' =>
-              apply ih
-              · rfl
-              · show K (it.discardedErr || r2.isErr) s'
-                cases hr : r2.isErr with
-                | true => simp; exact K_true s'
-                | false =>
-                  simp
-                  exact doOp_K (o := .next) hk2 hn hr
-          · simp only [hnull, if_false]
-            cases hrc : runClient c fuel [] s with
-            | mk res s' =>
-              cases res with
+              cases r2 with
+              | err e => simp [Good]
+              | event e2 =>
+                simp only []
+                exact ih _ rfl (doOp_K (o := .next) hk2 hn (by simp [R.isErr]))
               | none =>
-                simp only [Good]
-                exact ⟨rfl, runClient_K c fuel [] s s' _ hk2 hrc⟩
-              | some e => simp [Good]
+                simp only []
+                exact ih _ rfl (doOp_K (o := .next) hk2 hn (by simp [R.isErr]))
+          · simp only [hnull, if_false]
+            by_cases hend : isContainerEnd ev = true
+            · simp [hend, Good]
+            · simp only [hend, if_false]
+              cases hrc : runClient c fuel [] s with
+              | mk res s' =>
+                cases res with
+                | none =>
+                  simp only [Good]
+                  exact ⟨rfl, runClient_K c fuel [] s s' _ hk2 hrc⟩
+                | some e => simp [Good]
         | none =>
           simp only [Bool.false_eq_true, if_false]
           unfold Src.finish
@@ -566,12 +357,11 @@ theorem next_pull (cc : CC) :
         (∀ cap, cc.maxBytes = some cap → (Reader.next cc).2.totalBytes ≤ cap)) ∧
     ((Reader.next cc).1 = none → (Reader.next cc).2.pulled ≤ cc.pulled + 4) := by
   unfold Reader.next
-  cases h1 : readExact1 cc.reader with
+  cases h1 : readFirst cc.reader with
   | mk r1 s1 =>
     cases r1 with
-    | err k =>
-      simp only []
-      split <;> simp
+    | eof => simp
+    | err k => simp
     | byte first =>
       simp only []
       cases hn : needed first with
@@ -611,11 +401,11 @@ theorem next_pull (cc : CC) :
 
 /-! ### inputs no larger than the cap -/
 
-theorem readExact1_flat (s : Sched) : ∀ b, (readExact1 s).1 = .byte b → flat s = b :: flat (readExact1 s).2 := by
-  fun_induction readExact1 s <;> simp_all [flat]
+theorem readFirst_flat (s : Sched) : ∀ b, (readFirst s).1 = .byte b → flat s = b :: flat (readFirst s).2 := by
+  fun_induction readFirst s <;> simp_all [flat]
 
-theorem readExact1_flat_err (s : Sched) : ∀ k, (readExact1 s).1 = .err k → flat (readExact1 s).2 = flat s := by
-  fun_induction readExact1 s <;> simp_all [flat]
+theorem readFirst_flat_err (s : Sched) : (∀ b, (readFirst s).1 ≠ .byte b) → flat (readFirst s).2 = flat s := by
+  fun_induction readFirst s <;> simp_all [flat]
 
 theorem readCall_flat' {n : Nat} {s s' : Sched} {r : ReadRes} (h : readCall n s = (r, s')) :
     (∀ bs, r = .ok bs → bs ++ flat s' = flat s) ∧ (∀ k, r = .err k → flat s' = flat s) := by
@@ -670,19 +460,23 @@ theorem next_cap_free (cc : CC) (cap L : Nat) (hi : CapInv L cc) (hL : L ≤ cap
   subst hm
   obtain ⟨hi1, hi2⟩ := hi
   simp only at hi1 hi2
-  have hfl := readExact1_flat rd
+  have hfl := readFirst_flat rd
   unfold Reader.next
   simp only []
-  cases h1 : readExact1 rd with
+  cases h1 : readFirst rd with
   | mk r1 s1 =>
     rw [h1] at hfl
     cases r1 with
-    | err k =>
-      simp only []
+    | eof =>
       have hflx : flat s1 = flat rd := by
-        have := readExact1_flat_err rd k (by rw [h1])
+        have := readFirst_flat_err rd (by rw [h1]; simp)
         rw [h1] at this; exact this
-      split <;> simp [CapInv, hflx, hi1, hi2]
+      simp [CapInv, hflx, hi1, hi2]
+    | err k =>
+      have hflx : flat s1 = flat rd := by
+        have := readFirst_flat_err rd (by rw [h1]; simp)
+        rw [h1] at this; exact this
+      simp [CapInv, hflx, hi1, hi2]
     | byte first =>
       have hfl1 := hfl first rfl
       simp only [] at hfl1 ⊢
